@@ -113,3 +113,12 @@ mut('C18', 'business-profit-literal-good', [(SD, "'SUP_' + output_name + ' - DEM
 mut('C18', 'zone-search-skips-first-country', [('models.py', "        out = []\n        for c in self.CountryList:\n            out.extend(c.GetSectors())", "        out = []\n        for c in self.CountryList[1:]:\n            out.extend(c.GetSectors())")], ['every_sector', 'CurrencyZone.GetSectors'])
 mut('C18', 'zone-lookup-first-match', [('models.py', "                if out is not None:\n                    raise LogicError(\"\"\"Multiple sectors", "                if out is not None and False:\n                    raise LogicError(\"\"\"Multiple sectors")], ['the_only', 'inv_step'])
 ben('C18', 'zone-sectors-list-concat', [('models.py', "        out = []\n        for c in self.CountryList:\n            out.extend(c.GetSectors())\n        return out", "        found = []\n        for c in self.CountryList:\n            found.extend(c.GetSectors())\n        return found")])
+
+# ---- C04 / C08 ---------------------------------------------------------------------------------------
+SEC = 'sector.py'
+for _pid in ('C04', 'C08'):
+    mut(_pid, 'demand-scan-stops-at-first-sector-without-demand', [(SEC, "                Logger('Variable {0} does not exist in {1}', priority=10,\n                       data_to_format=(var_name, s.FullCode))\n                continue", "                Logger('Variable {0} does not exist in {1}', priority=10,\n                       data_to_format=(var_name, s.FullCode))\n                break")], ['every_sector_of_the_zone_list_examined', 'included_iff', 'one_record_per'])
+    mut(_pid, 'demand-scan-country-only', [(SEC, "        for s in self.CurrencyZone.GetSectors():\n            if s.ID == self.ID:\n                continue\n            if self.ShareParent(s):", "        for s in self.Parent.GetSectors():\n            if s.ID == self.ID:\n                continue\n            if self.ShareParent(s):")], ['_GenerateTermsLowLevel', 'markets', 'permutations'])
+mut('C04', 'demand-outflow-booked-as-inflow', [(SEC, "                s.AddCashFlow('-' + var_name, '', long_desc)", "                s.AddCashFlow('+' + var_name, '', long_desc)")], ['demander_is_booked', '_GenerateTermsLowLevel'])
+mut('C04', 'demand-long-name-everywhere', [(SEC, "            if self.ShareParent(s):\n                var_name = short_name\n            else:\n                var_name = long_name", "            if self.ShareParent(s):\n                var_name = short_name\n            else:\n                var_name = short_name")], ['each_included_sector_has_its_term', 'included_iff', 'markets', '_GenerateTermsLowLevel'])
+mut('C08', 'business-labour-demand-created-late', [('sector_definitions.py', "        self.AddVariable('DEM_' + labour_input_name, 'Demand for labour', '')\n", "")], ['labour_demand_declared', 'permutations'])
